@@ -136,10 +136,51 @@ func runConc(scenario string, jitterSeed uint64, quiet time.Duration) concObs {
 		ch3 := directAsync(r, cY, 3, 0)
 		o.Rets = append(o.Rets, waitRet(ch3, time.Second))
 		o.Phase2 = append(o.Phase2, drain(r, quiet)...)
+	case "e":
+		// a Direct abandoned by its context while the slot is full: the call returns the
+		// context error, nothing is delivered for it, and (the code records a CID when it
+		// passes the filter, not when it is delivered) a later announcement of it is a duplicate
+		if err := r.Direct(bg, recvdrv.Cid(cX), peer.AddrInfo{ID: recvdrv.Peer(5)}); err != nil {
+			panic(err)
+		}
+		ctx, cancel := context.WithTimeout(bg, 25*time.Millisecond+jit())
+		err := r.Direct(ctx, recvdrv.Cid(cY), peer.AddrInfo{ID: recvdrv.Peer(1)})
+		cancel()
+		o.Rets = append(o.Rets, retOf(err))
+		o.Deliv = drain(r, quiet)
+		ch2 := directAsync(r, cY, 2, 0)
+		o.Rets = append(o.Rets, waitRet(ch2, time.Second))
+		o.Phase2 = drain(r, quiet)
+	case "f":
+		// a Direct pending on the full slot when the receiver is closed: it returns ErrClosed
+		if err := r.Direct(bg, recvdrv.Cid(cX), peer.AddrInfo{ID: recvdrv.Peer(5)}); err != nil {
+			panic(err)
+		}
+		ch1 := directAsync(r, cY, 1, jit())
+		time.Sleep(20*time.Millisecond + jit())
+		cerr := make(chan error, 1)
+		go func() { cerr <- r.Close() }()
+		select {
+		case <-cerr:
+			o.Rets = append(o.Rets, waitRet(ch1, time.Second))
+		case <-time.After(2 * time.Second):
+			o.Rets = append(o.Rets, "close-hung")
+		}
+		o.Deliv = drain(r, 50*time.Millisecond)
 	default:
 		panic("scenario " + scenario)
 	}
 	return o
+}
+
+func retOf(err error) string {
+	switch {
+	case err == nil:
+		return "nil"
+	case err == announce.ErrClosed:
+		return "closed"
+	}
+	return "ctx"
 }
 
 func countCid(d [][2]int, c int) int {
@@ -154,6 +195,27 @@ func countCid(d [][2]int, c int) int {
 
 // concOracle: the property on one observation
 func concOracle(o concObs) string {
+	switch o.Scenario {
+	case "e":
+		if len(o.Rets) != 2 || o.Rets[0] != "ctx" || o.Rets[1] != "nil" {
+			return fmt.Sprintf("Direct abandoned by its context on a full slot, then announced again: returns %v, want [ctx nil]", o.Rets)
+		}
+		if countCid(o.Deliv, cX) != 1 || len(o.Deliv) != 1 {
+			return fmt.Sprintf("an abandoned Direct must deliver nothing: deliveries %v", o.Deliv)
+		}
+		if countCid(o.Phase2, cY) > 1 {
+			return fmt.Sprintf("deliveries %v", o.Phase2)
+		}
+		return ""
+	case "f":
+		if len(o.Rets) != 1 || o.Rets[0] != "closed" {
+			return fmt.Sprintf("Direct pending on a full slot when the receiver is closed returned %v, want ErrClosed", o.Rets)
+		}
+		if countCid(o.Deliv, cY) != 0 {
+			return "an announcement was delivered after Close"
+		}
+		return ""
+	}
 	for _, r := range o.Rets {
 		if r != "nil" {
 			return fmt.Sprintf("a Direct call returned %s (still pending after the consumer drained the receiver, or failed)", r)
@@ -217,6 +279,22 @@ func concCandidates(o concObs) [][]string {
 			}
 			cands = append(cands, append(h, quietN))
 		}
+	case "e":
+		h := []string{dOp(cX, 5, "nil"), dOp(cY, 1, "pending")}
+		for _, d := range o.Deliv {
+			h = append(h, nAnn(d))
+		}
+		h = append(h, quietN, dOp(cY, 2, o.Rets[1]))
+		for _, d := range o.Phase2 {
+			h = append(h, nAnn(d))
+		}
+		cands = append(cands, append(h, quietN))
+	case "f":
+		h := []string{dOp(cX, 5, "nil"), "(OClose, RNil)", dOp(cY, 1, o.Rets[0])}
+		for _, d := range o.Deliv {
+			h = append(h, nAnn(d))
+		}
+		cands = append(cands, append(h, "(ONext false, RClosed)"))
 	case "d":
 		for _, uFirst := range []bool{true, false} {
 			h := []string{dOp(cX, 5, "nil")}
@@ -265,7 +343,7 @@ func (c *ctx) concCases() {
 		seed uint64
 	}
 	var jobs []job
-	for _, sc := range []string{"a", "b", "d"} {
+	for _, sc := range []string{"a", "b", "d", "e", "f"} {
 		for i := 0; i < reps; i++ {
 			jobs = append(jobs, job{sc, r.Uint64()})
 		}
